@@ -1,6 +1,7 @@
 import SE.Driver.Escape
 import SE.Driver.Line
 import SE.Driver.Mapper
+import SE.Driver.Pipe
 /-
 sedriver: the line-protocol front end of the executable models. One operation per input
 line, one result line per operation. It executes the very definitions the theorems in
@@ -16,6 +17,7 @@ def step (line : String) : String :=
     | "escape" => escapeCmd args
     | "parse" => parseCmd args
     | "mapper" => mapperCmd args
+    | "pipe" => pipeCmd args
     | _ => "bad-op"
 
 partial def loop (h : IO.FS.Stream) (out : IO.FS.Stream) : IO Unit := do
